@@ -280,6 +280,7 @@ def all_specs(ctx):
 
 def run_shard(ctx):
     import fsic
+    long_spans(ctx)
     specs = all_specs(ctx)
     for si, spec in enumerate(specs):
         if not ctx.mine(si):
@@ -321,6 +322,69 @@ def run_shard(ctx):
             ctx.count('alias_named_label_specs')
             check_spec(ctx, spec, cls=AC)
             check_spec(ctx, spec, cls=AM)
+
+
+def long_spans(ctx):
+    """Spans far longer than the catalogue's (1100 periods): positions around powers of two and thousands, by label and by label
+    slice (inclusive, stepped), get and set - the same reference, so any shortcut taken only for long spans must agree with it."""
+    import pandas as pd
+    import fsic
+    from fsic.core import VectorContainer
+    n = 1100
+    kinds = {
+        'range': (lambda: range(1900, 1900 + n), lambda i: 1900 + i),
+        'list[int]': (lambda: [3 * i + 7 for i in range(n)], lambda i: 3 * i + 7),
+        'list[str]': (lambda: [f'p{i}' for i in range(n)], lambda i: f'p{i}'),
+        'tuple[int]': (lambda: tuple(range(n, 0, -1)), lambda i: n - i),
+        'ndarray[int64]': (lambda: np.arange(500, 500 + n), lambda i: 500 + i),
+        'pd.Index[int]': (lambda: pd.Index(range(10, 10 + n)), lambda i: 10 + i),
+        'pd.RangeIndex': (lambda: pd.RangeIndex(5, 5 + n), lambda i: 5 + i),
+        'pd.PeriodIndex[Q]': (lambda: pd.period_range(start='1800Q1', periods=n, freq='Q'), lambda i: str(pd.period_range(start='1800Q1', periods=n, freq='Q')[i])),
+        'pd.DatetimeIndex[D]': (lambda: pd.date_range(start='2000-01-01', periods=n, freq='D'), lambda i: pd.date_range(start='2000-01-01', periods=n, freq='D')[i].strftime('%Y-%m-%d')),
+    }
+    probes = [0, 1, 2, 31, 32, 33, 63, 64, 65, 127, 128, 255, 256, 257, 511, 512, 999, 1000, 1001, 1023, 1024, 1025, n - 2, n - 1]
+    for k, (kind, (mk, lab)) in enumerate(kinds.items()):
+        if not ctx.mine(k):
+            continue
+        for cls in (VectorContainer, fsic.BaseModel):
+            c = cls(mk())
+            c.add_variable('X', np.arange(n, dtype=float))
+            ctx.seen('long_span_kinds', kind)
+            for i in probes:
+                case = {'span_kind': kind, 'n': n, 'op': 'long-span', 'position': i, 'class': cls.__name__}
+                ctx.evaluation(('long', kind, cls.__name__, i), nontrivial=True, sample=case)
+                try:
+                    got = c['X', lab(i)]
+                    before = state(c)
+                    c['X', lab(i)] = -3.5
+                    ch = changed(before, state(c))
+                    c.X[i] = float(i)
+                except Exception as e:
+                    ctx.violation('label-get', f'{kind} of {n} periods: label {lab(i)!r} (position {i}) raised {type(e).__name__}: {e}', case)
+                    break
+                ctx.count('label_reads')
+                ctx.count('label_writes')
+                if not (np.ndim(got) == 0 and got == i):
+                    ctx.violation('label-get', f'{kind} of {n} periods: obj["X", {lab(i)!r}] returned {got!r}; the label is at position {i}', case)
+                    break
+                if ch != {('X', i)}:
+                    ctx.violation('label-set', f'{kind} of {n} periods: obj["X", {lab(i)!r}] = v changed cells {sorted(ch)[:6]}, expected only position {i}', case)
+                    break
+            else:
+                for i, j in zip(probes, probes[3:] + probes[:3]):
+                    for step in (None, 1, 7, 64):
+                        case = {'span_kind': kind, 'n': n, 'op': 'long-span-slice', 'from': i, 'to': j, 'step': step, 'class': cls.__name__}
+                        ctx.evaluation(('long-slice', kind, cls.__name__, i, j, step), nontrivial=True, sample=case)
+                        want = list(range(i, j + 1, step or 1)) if i <= j else []
+                        try:
+                            got = c['X', lab(i):lab(j):step]
+                        except Exception as e:
+                            ctx.violation('slice-get', f'{kind} of {n} periods: obj["X", {lab(i)!r}:{lab(j)!r}:{step}] raised {type(e).__name__}: {e}', case)
+                            continue
+                        ctx.count('slice_reads')
+                        if [int(x) for x in got] != want:
+                            ctx.violation('slice-get', f'{kind} of {n} periods: obj["X", {lab(i)!r}:{lab(j)!r}:{step}] selected {[int(x) for x in got][:6]}... ({len(got)} cells); '
+                                                       f'inclusive label slicing selects {want[:6]}... ({len(want)} cells)', case)
 
 
 def _as_container(M, span):
